@@ -4,6 +4,7 @@ package joesim
 
 import (
 	"fmt"
+	"runtime"
 	"testing"
 
 	"pgregory.net/rapid"
@@ -33,11 +34,18 @@ func reps() int {
 }
 
 func checkProp(prop string) func(t *testing.T, c JoeCase) *stats.Verdict {
+	return checkPropMode(prop, false)
+}
+
+func checkPropMode(prop string, freeRun bool) func(t *testing.T, c JoeCase) *stats.Verdict {
 	return func(t *testing.T, c JoeCase) *stats.Verdict {
 		v := &stats.Verdict{Size: len(c.Sc.Picks) + 10*len(c.Sc.Subs)}
 		for r := 0; r < reps(); r++ {
-			ex := runScenario(t, c.Sc)
+			ex := runScenarioMode(t, c.Sc, freeRun)
 			v.Count("executions", 1)
+			if freeRun {
+				v.Class(fmt.Sprintf("free-running/GOMAXPROCS=%d", runtime.GOMAXPROCS(0)))
+			}
 			vs, f := check(c.Sc, ex)
 			if ex.truncated {
 				v.Count("step_limit_hit", 1)
@@ -133,6 +141,24 @@ func runProp(t *testing.T, prop string) {
 		Check: checkProp(prop),
 	})
 }
+
+const ruleFree = " FREE-RUNNING PASS: the same scenarios and the same checker on the real scheduler (inside a bubble for exact quiescence, built with -race, at the GOMAXPROCS values given by -test.cpu): nothing parks, actors are started in schedule order and the hooks only yield/spin as told by the schedule."
+
+func runPropFree(t *testing.T, prop string) {
+	gen := genScenario(profiles[prop])
+	stats.Run(t, stats.Prop[JoeCase]{
+		ID:    prop,
+		Rule:  ruleCommon + ruleFree + nonTrivialRules[prop],
+		Gen:   func(rt *rapid.T) JoeCase { return JoeCase{Sc: gen(rt)} },
+		Check: checkPropMode(prop, true),
+	})
+}
+
+func TestC03Free(t *testing.T) { runPropFree(t, "C03") }
+func TestC04Free(t *testing.T) { runPropFree(t, "C04") }
+func TestC06Free(t *testing.T) { runPropFree(t, "C06") }
+func TestC07Free(t *testing.T) { runPropFree(t, "C07") }
+func TestC17Free(t *testing.T) { runPropFree(t, "C17") }
 
 func TestC03(t *testing.T) { runProp(t, "C03") }
 func TestC04(t *testing.T) { runProp(t, "C04") }
